@@ -413,6 +413,8 @@ PROP = Prop(
         Leg("random_operands", check_random, strategy=strat_random, n_quick=700, n_thorough=6000, shards_quick=4,
             must_hit=["parent_with_sequence", "self_overlapping_operand", "nested_operand", "mismatched_parents", "empty_block_in_operand"],
             rule="random operands with their own empty/adjacent/overlapping blocks, shuffled constructor order, with/without parents (id only, with sequence, mismatched id, mismatched sequence, one missing), random extensions and shifts"),
+        Leg("operands_coverage_guided", check_random, fuzz_of="random_operands", n_quick=200, n_thorough=8000, shards_quick=2, shards_thorough=8,
+            rule="coverage-guided: the `random_operands` leg's strategy driven by atheris/libFuzzer through hypothesis.fuzz_one_input with the `inscripta` package instrumented (fresh empty corpus, budget in runs; same check, clauses and known-finding predicates; failures collected unshrunk)"),
         Leg("empty_operand", check_empty_operand, enumerate=enum_empty, exhaustive=True, shards_quick=1, shards_thorough=1,
             rule="EmptyLocation as left/right operand of every operation"),
     ],
